@@ -225,12 +225,24 @@ func Harness_C04_step() {
 			reach("notes-only")
 		} else {
 			vassert(!returned, "Batch waits for the replies to its calls")
-			// answer every call, in reverse order, and let Batch return
-			for i := n - 1; i >= 0; i-- {
+			// answer every call - in spec order or in reverse, all at once or one
+			// record at a time with the client running in between - and let
+			// Batch return
+			forward := nondetBool("replies-in-spec-order")
+			separately := nondetBool("replies-in-separate-records")
+			for k := 0; k < n; k++ {
+				i := n - 1 - k
+				if forward {
+					i = k
+				}
 				if !specs[i].Notify {
 					c.mu.Lock()
 					c.deliverLocked(&jmessage{ID: wire[i].ID, R: json.RawMessage(verifItoa(i))})
 					c.mu.Unlock()
+					if separately {
+						quiesce()
+						vassert(len(env.cancels) == 0, "C05: OnCancel never runs for a request whose context did not end")
+					}
 				}
 			}
 			quiesce()
